@@ -765,6 +765,7 @@ static HistRes c06Run(uint64_t sub, const ParamSet& cfg, int nsteps, bool count)
    std::string curCall = "?";
    try
    {
+   bool rowsRemovedOnBasis = false;      // rows were removed while the current basis was held (see the basis check below)
    for(int step = 0; step < nsteps && R.tag.empty(); step++)
    {
       int w = g.range(0, 99);
@@ -793,6 +794,8 @@ static HistRes c06Run(uint64_t sub, const ParamSet& cfg, int nsteps, bool count)
             break;
          }
          if(c.name == "noop") continue;
+         if(c.name.rfind("removeRow", 0) == 0 && sp.hasBasis()) rowsRemovedOnBasis = true;
+         if(!sp.hasBasis() || c.name.find("Basis") != std::string::npos) rowsRemovedOnBasis = false;
          std::string e = compareAccessors(sp, M);
          if(!e.empty())
          {
@@ -810,14 +813,25 @@ static HistRes c06Run(uint64_t sub, const ParamSet& cfg, int nsteps, bool count)
             {
                if(count) S.count("c06.basis_after_modification_checked");
                std::string r = monitorBasis(sp, M, false);
-               if(!r.empty()) fail("basis." + r.substr(0, r.find(':')) + ".after." + c.name, r.substr(r.find(':') + 1), step);
+               // a finding seen after an operation that follows an earlier row removal on the same basis is marked: the stale basis
+               // ids left by the removal (known finding) surface at the next operation that touches the basis
+               if(!r.empty()) fail("basis." + r.substr(0, r.find(':')) + ".after." + c.name + (rowsRemovedOnBasis
+                                      && c.name.rfind("removeRow", 0) != 0 ? "+earlier-row-removal" : ""), r.substr(r.find(':') + 1), step);
             }
          }
       }
       else if(w < 88)
       {
          if(M.n == 0) continue;
+         // a warm start from a basis in which a free row is nonbasic (only reachable through modifications that free a nonbasic row)
+         // runs into the known pricing gap for free rows; findings of such solves are marked
+         bool freeRowNonbasic = false;
+         if(sp.hasBasis() && sp.numRows() == M.m)
+            for(int i = 0; i < M.m; i++) if(isNInf(M.lhs[i]) && isPInf(M.rhs[i]) && sp.basisRowStatus(i) != SPX::BASIC) freeRowNonbasic = true;
+         if(count && freeRowNonbasic) S.count("c06.solves_from_basis_with_nonbasic_free_row");
+         const std::string frn = freeRowNonbasic ? "+nonbasic-free-row" : "";
          sp.optimize();
+         rowsRemovedOnBasis = false;
          int st = (int)sp.status();
          double v = sp.hasSol() ? sp.objValueReal() : 0;
          if(verbose && count) fprintf(stderr, "step %d: optimize -> %s %.10g iters %d\n%s", step, statusName(st), v, sp.numIterations(), step >= 0 ? M.toLPText().c_str() : "");
@@ -843,7 +857,7 @@ static HistRes c06Run(uint64_t sub, const ParamSet& cfg, int nsteps, bool count)
          if(count) S.count("c06.solves_compared");
          if(!sameVerdict(st, fst))
          {
-            fail(std::string("resolve.status.") + statusName(st), std::string("re-optimising the modified LP gives ") + statusName(
+            fail(std::string("resolve.status.") + statusName(st) + frn, std::string("re-optimising the modified LP gives ") + statusName(
                     st) + ", a new solver given the final LP gives " + statusName(fst) + " (step " + std::to_string(step) + ")", step);
             break;
          }
@@ -851,7 +865,7 @@ static HistRes c06Run(uint64_t sub, const ParamSet& cfg, int nsteps, bool count)
          {
             double rel = std::fabs(v - fv) / (1.0 + std::fabs(fv) + std::fabs(dq(T.objval)));
             if(count) S.maxi("c06.resolveObj/thr", rel / 1e-5);
-            if(rel > 1e-5) fail("resolve.objective", "re-optimised value " + ds(v) + ", from scratch " + ds(fv) + " (step " + std::to_string(step) + ")", step);
+            if(rel > 1e-5) fail("resolve.objective" + frn, "re-optimised value " + ds(v) + ", from scratch " + ds(fv) + " (step " + std::to_string(step) + ")", step);
          }
       }
       else if(w < 92)
